@@ -1,8 +1,10 @@
 import IrVerif.Props.C19
 open IrVerif.Device
-#print axioms C19_step_partial
+#print axioms C19_step
+#print axioms C19_history
 #print axioms C19_checker_silent
 #print axioms C19_checker_only_names
 #print axioms C19_drop
 #print axioms C19_reject_atomic
 #print axioms C19_names_current
+#print axioms C19_serializable
